@@ -134,7 +134,7 @@ vp_check_os(void) {
   int f;
   for (f = 0; f < 2; f++)
     VP_ASSERT(!vp_held[f] || vp_oslock[f],
-              "vp:KF:C20-lockfile-close-drops-posix-lock a held lock file is still locked at the OS level");
+              "KF:C20-lockfile-close-drops-posix-lock a held lock file is still locked at the OS level");
 #endif
 }
 
